@@ -201,3 +201,51 @@ fn state_decode_total_len3() {
         }
     }
 }
+
+fn any_capability() -> Capability {
+    let c: u8 = kani::any();
+    kani::assume(c < 3);
+    match c {
+        0 => Capability::MessageV1,
+        1 => Capability::MessageV2,
+        _ => Capability::SyncReset,
+    }
+}
+
+/// The capability predicates that steer the protocol (whether to send a SYNC_RESET flag or fall
+/// back to a reset message, whether to use V2 messages, whether to send the whole document), over
+/// every capability list of length 0..=2 and absent: each looks for ITS capability and no other.
+#[kani::proof]
+#[kani::unwind(4)]
+fn state_capability_predicates() {
+    let c0 = any_capability();
+    let c1 = any_capability();
+    let n: u8 = kani::any();
+    kani::assume(n <= 3);
+    let caps = match n {
+        0 => None,
+        1 => Some(Vec::new()),
+        2 => Some(vec![c0.clone()]),
+        _ => Some(vec![c0.clone(), c1.clone()]),
+    };
+    let heads_case: u8 = kani::any();
+    kani::assume(heads_case < 3);
+    let mut s = State::new();
+    s.their_capabilities = caps;
+    s.their_heads = match heads_case {
+        0 => None,
+        1 => Some(Vec::new()),
+        _ => Some(vec![ChangeHash([9; 32])]),
+    };
+    let has = |want: &Capability| match n {
+        0 | 1 => false,
+        2 => c0 == *want,
+        _ => c0 == *want || c1 == *want,
+    };
+    assert_eq!(s.peer_supports_sync_reset(), has(&Capability::SyncReset));
+    assert_eq!(s.supports_v2_messages(), has(&Capability::MessageV2));
+    assert_eq!(s.send_doc(), heads_case == 1 && has(&Capability::MessageV2));
+    kani::cover!(s.peer_supports_sync_reset() && !s.supports_v2_messages());
+    kani::cover!(s.send_doc());
+    std::mem::forget(s);
+}
